@@ -20,6 +20,8 @@ from ..models import odfws
 
 S7 = ["a", " ", "\t", "\n", "<", "&", "é"]
 S4 = ["a", " ", "\t", "\n"]
+# characters Python calls white space (str.isspace, \s) but ODF does not: they are ordinary text
+SU = ["a", " ", "\u00a0", "\u3000", "\u2003", "\t"]
 
 
 def splits(n, maxpart):
@@ -51,6 +53,8 @@ def ws_class(s):
         parts.append("lf")
     if " \t" in s or "\t " in s or " \n" in s or "\n " in s:
         parts.append("space-next-to-ws-element")
+    if any(c in s for c in "\u00a0\u3000\u2003"):
+        parts.append("non-odf-unicode-space")
     return "+".join(parts) or "plain"
 
 
@@ -134,9 +138,9 @@ def work(task):
 def plan(tier):
     tasks = []
     if tier == "quick":
-        cfg = [(S7, 5, 2), (S4, 7, 2)]
+        cfg = [(S7, 5, 2), (S4, 7, 2), (SU, 4, 2)]
     else:
-        cfg = [(S7, 6, 2), (S4, 8, 2), (S7, 4, 4)]
+        cfg = [(S7, 6, 2), (S4, 8, 2), (S7, 4, 4), (SU, 6, 2)]
     for cls in ("Paragraph", "Header", "Span"):
         for alpha, maxlen, maxpart in cfg:
             for L in range(0, maxlen + 1):
